@@ -263,6 +263,53 @@ CHECKS["C15"] = dict(
                "every case of an exhaustively enumerated input space "
                "(TrainingSetTrace.tla)"))
 
+CHECKS["C02"] = dict(
+    engine="Formulas", category="model_checking",
+    text=("Formulas.tla transcribes the five documented closed forms as "
+          "operators over exact rationals on a lattice where they are "
+          "rational (R = r^2 u, depth = d^2 u or d u; layer thickness "
+          "derived so that xi is a perfect square): E over 4 decades x "
+          "Poisson ratio x radius x depth up to R x cone/pyramid angle x "
+          "layer ratios = 2280 points. TLC checks the formulas themselves "
+          "(zero at contact, increasing with depth, linear in E, series "
+          "factor in (0,1]) and EMITS the expected value of every point; the "
+          "real model_func and NaniteFitModel.model (both abscissa "
+          "orientations, and again after an in-place shift of the same "
+          "array) are evaluated at exactly those points x contact point x "
+          "baseline and must agree to 1e-12 relative; not in contact the "
+          "force must equal the baseline exactly. The documented 1e-4 bound "
+          "of the truncated series is compared with the installed exact "
+          "Sneddon reference model for depths up to R."),
+    design_ref="5 (C02), 3.3",
+    note=TB + ("Off-lattice parameter values are covered through the "
+               "polynomial-identity argument only."),
+    technique=("TLA+ transcription of the documented formulas on an exact "
+               "rational lattice; TLC enumerates the lattice and emits one "
+               "implementation test per point"))
+CHECKS["C13"] = dict(
+    engine="ModelContract", category="model_checking",
+    text=("ModelContract.tla defines the direction-agnostic wrapper and the "
+          "default residuals over integer abscissa sequences with four user "
+          "models (point-wise, prefix-sum, index-weighted, running-maximum; "
+          "three deliberately order-sensitive); TLC checks on all sequences "
+          "of length <= 4 that the user function sees approach order, "
+          "outputs are aligned and flips are covariant. The same four models "
+          "are registered with the REAL registry and evaluated on every "
+          "integer abscissa of length <= 3 (thorough: <= 5) over -2..2 x "
+          "contact points incl. outside the data x weighting distance; TLC "
+          "compares output order, the abscissa the user function actually "
+          "received, and the residuals as exact rationals with the spec. "
+          "Every registered model (5 shipped, the exact Sneddon plug-in, the "
+          "toys) is checked in both orientations for translation "
+          "covariance, baseline additivity, linearity in all moduli, "
+          "continuity at contact, monotony with depth, unmodified inputs, "
+          "and residual = (data - model) x weights for contact points "
+          "inside, just outside and far outside the data."),
+    design_ref="5 (C13), 3.3", note=TB,
+    technique=("TLA+ wrapper/residual semantics over sequences checked by "
+               "TLC; real registered models evaluated on the enumerated "
+               "inputs and validated by TLC (ModelContractTrace.tla)"))
+
 NOT_APPLICABLE = {
     "C01": ("Recovery of ground-truth parameters to optimiser precision is "
             "numerical convergence of lmfit/MINPACK on real-valued data; it "
